@@ -154,6 +154,8 @@ package cbreaker
 //@   requires c.metrics != nil && c.next != nil
 //@   modifies everything
 //@   ensures handler_once: calls(c.next.ServeHTTP) == 1
+//@   ensures {C20} writes_nothing_itself: calls(w.WriteHeader) == 0 && calls(w.Write) == 0
+//@   at_call c.next.ServeHTTP {C20} forwarding_writer_same_request: arg1 == req && istype(arg0, "*utils.ProxyWriter") && asref(payload(arg0), "*utils.ProxyWriter").w == w
 //@   ensures recorded_once: calls(Record) == 1 && calls(checkAndSet) == 1 && before(c.next.ServeHTTP, Record) && before(Record, checkAndSet)
 
 //@ func (*CircuitBreaker).ServeHTTP
@@ -161,6 +163,9 @@ package cbreaker
 //@   requires c.metrics != nil && c.next != nil && c.fallback != nil
 //@   modifies everything
 //@   ensures one_outcome: calls(c.fallback.ServeHTTP) + calls(serve) == 1
+//@   ensures {C20} writes_nothing_itself: calls(w.WriteHeader) == 0 && calls(w.Write) == 0
+//@   ensures {C20} fallback_gets_the_exchange: calls(c.fallback.ServeHTTP) == 1 ==> callarg(c.fallback.ServeHTTP, 0, 0) == w && callarg(c.fallback.ServeHTTP, 0, 1) == req
+//@   ensures {C20} passes_the_exchange_on: calls(serve) == 1 ==> callarg(serve, 0, 1) == w && callarg(serve, 0, 2) == req
 //@   ensures fallback_iff_activated: (calls(c.fallback.ServeHTTP) == 1) <==> callres(activateFallback, 0, 0)
 
 // ---- C18: the condition expression -------------------------------------------------------------------
@@ -290,3 +295,28 @@ package cbreaker
 //@   requires c != nil && c.metrics != nil
 //@   modifies external
 //@   ensures calls(ResponseCodeRatio) == 1 && result == callres(ResponseCodeRatio, 0, 0) && callarg(ResponseCodeRatio, 0, 1) == startA && callarg(ResponseCodeRatio, 0, 2) == endA && callarg(ResponseCodeRatio, 0, 3) == startB && callarg(ResponseCodeRatio, 0, 4) == endB
+
+// ---- C20: the intervention handlers write one complete response -------------------------------------------------------
+// the fallback keeps its own copy of the response / redirect description
+//@ type Response
+//@   immutable StatusCode ContentType Body
+//@ type Redirect
+//@   immutable URL PreservePath
+//@ type ResponseFallback
+//@   immutable r debug log
+//@ type RedirectFallback
+//@   immutable r u debug log
+
+//@ func (*ResponseFallback).ServeHTTP
+//@   props C20
+//@   requires f != nil && w != nil
+//@   modifies external
+//@   ensures one_status_one_body: calls(w.WriteHeader) == 1 && calls(w.Write) == 1 && before(w.WriteHeader, w.Write)
+//@   ensures configured_status: callarg(w.WriteHeader, 0, 0) == f.r.StatusCode
+//@   at_call w.WriteHeader length_declared: calls(w.Header) >= 1
+
+//@ func (*RedirectFallback).ServeHTTP
+//@   props C20
+//@   requires f != nil && w != nil && req != nil && req.URL != nil && f.u != nil
+//@   modifies external
+//@   ensures one_redirect: calls(w.WriteHeader) == 1 && callarg(w.WriteHeader, 0, 0) == 302 && calls(w.Write) == 1 && before(w.WriteHeader, w.Write)
